@@ -201,7 +201,7 @@ func genSourcesCase(t *rapid.T) detCase {
 		{Name: "t3." + f3, Rows: c.N3, CSV: render(f3, t3rows, r, late)},
 		{Name: "t4.csv", Rows: c.N1, CSV: t4csv},
 	}
-	g := &gctx{t: t, c: &c, t3ids: t3ids, gDom: gDom, gs: gs, hs: hs}
+	g := &gctx{t: t, c: &c, t3ids: t3ids, gDom: gDom, gs: gs, hs: hs, t1Temp: srcKind != 0}
 	var srcTag string
 	switch srcKind {
 	case 0:
